@@ -318,6 +318,7 @@ def run(ctx):
     ok = ctx.build('Props/C12.v', extra=['Run/Run.v'])
     rng = ctx.rng
     cases = []
+    arg_cases = []
     nhit = 0
     kinds = {}
     n = 30000 if thorough else 4000
@@ -370,6 +371,12 @@ def run(ctx):
                         [(t, r) for t, r in lits_], child.consumed[:12], list(sent), want_sent)
         if not bad:
             bad = passthru_oracle(case, box)
+        if box.get('ctor') is not None and len(arg_cases) < 400:
+            pt_ = case.get('passthru') or {}
+            g = pt_.get('timeout', -1)
+            t_ = box['ctor']['timeout']
+            arg_cases.append(('None' if g == -1 else ('(Some None)' if g is None else '(Some (Some (%d)%%Z))' % g),
+                              [] if t_ is None else [t_], {'timeout_given': repr(pt_.get('timeout', 'not given'))}))
         if not bad and not any(r[0] == 'cb' and r[2] == 'method' for _, r in case['events']):
             bad = state_dict_oracle(box.get('log', []))
         if bad and nhit < 3:
@@ -393,6 +400,7 @@ def run(ctx):
     ctx.oracle_stats.update({'runs': n, 'stop_kinds': kinds})
     if os.path.exists(os.path.join(common.COQ, 'Run/Run.vo')):
         ctx.run_cases('run-loop', ['Base.Rx', 'Expect.Model', 'Run.Model', 'Run.Run'], 'run_case', 'option nat * list (entry rx * resp) * list ev', cases, shard=300)
+        ctx.run_cases('run-args', ['Run.Model', 'Run.Run'], 'run_args', 'option (option Z)', arg_cases, shard=400)
     else:
         ctx.corr_broken.append(('run-loop', {'error': 'model did not build'}))
 
